@@ -12,7 +12,9 @@
       ([group_call], [stack_call], [nifti_call]), and the names of the files it writes.  What the
       environment answers (glob, order files, the groups found, whether a conversion raises) is the
       [inputs] record.
-    * The output naming loop (dcmstack_cli.py:285-322) is modelled exactly: [name_loop].
+    * The output naming loop (dcmstack_cli.py:254-330) is modelled exactly: [name_loop] for one set of
+      names, [group_loop] / [dir_loop] for how the set is kept per source directory or, with
+      --dest-dir, shared by all source directories.
     * argparse itself is not modelled: [args] is the parsed namespace. *)
 From Coq Require Import List Bool Arith ZArith NArith Lia.
 From DV Require Import Common.Res Common.Str Common.F64 Common.PyNum Filter.Model.
@@ -368,39 +370,40 @@ Section Run.
 
   Definition gen_meta : bool := a_embed_meta a || a_dump_meta a.
 
-  (** the loop over the groups of one directory: files written so far and the exception, if any *)
+  (** the loop over the groups of one directory: files written so far, the exception if any, and the
+      set of generated names afterwards *)
   Fixpoint group_loop (src_dir : str) (gen : list str) (out_idx gidx : nat) (groups : list group_info)
-    : list file_out * option err :=
+    : list file_out * option err * list str :=
     match groups with
-    | [] => ([], None)
+    | [] => ([], None, gen)
     | gi :: rest =>
         let sc := {| sc_dir := src_dir; sc_group := gidx; sc_warn := negb (a_strict a);
                      sc_time_order := time_order; sc_vector_order := vector_order;
                      sc_excl := excl; sc_incl := incl |} in
         let nc := {| nc_voxel_order := a_voxel_order a; nc_embed := gen_meta |} in
         match i_stack i sc with
-        | Err e => ([], Some e)
+        | Err e => ([], Some e, gen)
         | Ok _ =>
         match natural_name a gi with
-        | Err e => ([], Some e)
+        | Err e => ([], Some e, gen)
         | Ok nat_name =>
         match unique_name gen out_idx (sanitize_path_comp nat_name) with
-        | Err e => ([], Some e)
+        | Err e => ([], Some e, gen)
         | Ok out =>
             let fname := out ++ a_output_ext a in
             let path := path_join (match truthy (a_dest_dir a) with Some d => d | None => src_dir end) fname in
             match i_nifti i sc nc with
-            | Err e => ([], Some e)
+            | Err e => ([], Some e, out :: gen)
             | Ok _ =>
             match (if a_dump_meta a then match meta_path path with Ok p => Ok (Some p) | Err e => Err e end
                    else Ok None) with
-            | Err e => ([], Some e)
+            | Err e => ([], Some e, out :: gen)
             | Ok jp =>
                 let fo := {| fo_stack := sc; fo_nifti := nc; fo_name := fname; fo_path := path;
                              fo_json_path := jp;
                              fo_strip_ext := a_dump_meta a && negb (a_embed_meta a) |} in
-                let '(fs, e) := group_loop src_dir (out :: gen) (S out_idx) (S gidx) rest in
-                (fo :: fs, e)
+                let '(fs, e, gen') := group_loop src_dir (out :: gen) (S out_idx) (S gidx) rest in
+                (fo :: fs, e, gen')
             end
             end
         end
@@ -411,7 +414,14 @@ Section Run.
   Definition glob_pattern (src_dir : str) : str :=
     path_join src_dir [42%N] ++ (if nonempty (a_file_ext a) then a_file_ext a else []).
 
-  Fixpoint dir_loop (group_by : list str) (x : extractor) (dirs : list str) : list dir_out * option err :=
+  (** does this invocation keep ONE set of generated names for all source directories?
+      (with --dest-dir, since the fix for the shared-destination collisions) *)
+  Definition shares_names : bool :=
+    names_shared_dest && match truthy (a_dest_dir a) with Some _ => true | None => false end.
+
+  (** [shared] is dest_dir_outs: the names generated so far by earlier source directories *)
+  Fixpoint dir_loop (group_by : list str) (x : extractor) (shared : list str) (dirs : list str)
+    : list dir_out * option err :=
     match dirs with
     | [] => ([], None)
     | d :: rest =>
@@ -421,11 +431,12 @@ Section Run.
         match i_groups i gc with
         | Err e => ([], Some e)
         | Ok groups =>
-            let '(files, e) := group_loop d [] 0 0 groups in
+            let '(files, e, gen') := group_loop d (if shares_names then shared else []) 0 0 groups in
             let this := {| do_glob := pat; do_group_call := gc; do_files := files |} in
             match e with
             | Some _ => ([this], e)
-            | None => let '(ds, e') := dir_loop group_by x rest in (this :: ds, e')
+            | None => let '(ds, e') := dir_loop group_by x (if shares_names then gen' else shared) rest in
+                      (this :: ds, e')
             end
         end
     end.
@@ -457,7 +468,7 @@ Definition dcmstack_main (g : globals) (a : args) (i : inputs) : globals * outpu
                                 | Some s => split_on 44%N s
                                 | None => g_group_keys g'
                                 end in
-                let '(ds, e) := dir_loop a i excl incl t_ord v_ord group_by x (a_src_dirs a) in
+                let '(ds, e) := dir_loop a i excl incl t_ord v_ord group_by x [] (a_src_dirs a) in
                 (g', ORun ds e)
             end
         end
